@@ -1,7 +1,7 @@
 mod flags;
 pub mod parameter;
 
-use std::{io, num::NonZero};
+use std::{cmp, io, num::NonZero};
 
 pub use self::{flags::Flags, parameter::Parameter};
 use self::{flags::read_flags, parameter::fqz_decode_single_param};
@@ -103,24 +103,22 @@ fn read_selector_table(src: &mut &[u8]) -> io::Result<Vec<u8>> {
 }
 
 pub fn read_array(src: &mut &[u8], n: usize) -> io::Result<Vec<u8>> {
-    let (mut j, mut z) = (0, 0);
+    let mut z = 0;
     let mut last = 0;
 
-    let mut runs = vec![0; n];
+    let mut runs = Vec::new();
 
     while z < n {
         let run = read_u8(src)?;
 
-        runs[j] = run;
-        j += 1;
+        runs.push(run);
         z += usize::from(run);
 
         if run == last {
             let copy = read_u8(src)?;
 
             for _ in 0..copy {
-                runs[j] = run;
-                j += 1;
+                runs.push(run);
             }
 
             z += usize::from(run) * usize::from(copy);
@@ -131,16 +129,20 @@ pub fn read_array(src: &mut &[u8], n: usize) -> io::Result<Vec<u8>> {
 
     let mut a = vec![0; n];
 
-    let mut i = 0;
-    j = 0;
+    let mut values = 0..=u8::MAX;
+    let mut runs = runs.into_iter();
     z = 0;
 
     while z < n {
+        let i = values
+            .next()
+            .ok_or_else(|| io::Error::new(io::ErrorKind::InvalidData, "too many runs"))?;
+
         let mut run_len = 0;
 
         loop {
-            let part = runs[j];
-            j += 1;
+            // The last run may lack its terminating part.
+            let part = runs.next().unwrap_or(0);
             run_len += usize::from(part);
 
             if part != 255 {
@@ -148,12 +150,10 @@ pub fn read_array(src: &mut &[u8], n: usize) -> io::Result<Vec<u8>> {
             }
         }
 
-        for _ in 0..run_len {
-            a[z] = i;
-            z += 1;
-        }
-
-        i += 1;
+        // The last run may be longer than what remains.
+        let end = cmp::min(z + run_len, n);
+        a[z..end].fill(i);
+        z = end;
     }
 
     Ok(a)
